@@ -121,6 +121,8 @@ def main(argv):
             "rule": getattr(eng, "rule_text", ""),
             "samples": eng.samples[:5] or [{"note": "no sample captured"}],
             "runs_per_hour": int(eng.evaluations / max(t_run, 1e-6) * 3600),
+            "seeds_per_hour_note": "every run has its own PRNG derived from (check, VERIF_SEED, run index): derived seeds/hour == runs/hour",
+            "sim_ticks_per_hour": int(eng.sim_ticks_total / max(t_run, 1e-6) * 3600),
             "child_processes_forked": total_runs,
             "fault_fired": dict(sorted(eng.fired.items())),
             "never_fired": sorted(getattr(eng, "expected_kinds", set()) - set(k for k, v in eng.fired.items() if v)),
